@@ -22,8 +22,11 @@ def gen_script(rng, maxf, maxops):
                 fibers[i].append("p")
             elif r < 0.80:
                 fibers[i].append(rng.choice(["x0", "x1"]))
-            elif r < 0.90:
+            elif r < 0.88:
                 fibers[i].append("w")
+            elif r < 0.93:
+                # a wait on a descriptor epoll refuses (must fail cleanly), and a close of it
+                fibers[i].append(rng.choice(["e", "e", "c"]))
             else:
                 fibers[i].append(rng.choice(["r0", "r1"]))
     for f in fibers:
@@ -114,6 +117,32 @@ def _borrow(pid, pname, n_quick, n_thorough, harness=None):
     return part
 
 
+def _deque_parts():
+    """C01 treats the run queues as bags at the deque API; that the deque hands every entry to
+    exactly one taker (also while it grows, also at scale) is C02's - its deque correspondence and
+    its scale part are re-run here, so that a deque that duplicates an entry (one fiber in two
+    run queues = on two kernel threads) is reported by this check too"""
+    def lazy(name):
+        import importlib
+        m = importlib.import_module("specs_c02")
+        return [p for p in m.SPEC["C02"]["parts"] if p["name"] == name][0]
+
+    def gen_wsd(rng, tier):
+        cs = lazy("wsd")["gen"](rng, tier)
+        rng.shuffle(cs)
+        return cs[: (3000 if tier == "thorough" else 300)]
+
+    def post_wsd(log, case):
+        return lazy("wsd")["post"](log, case)
+
+    def gen_scale(rng, tier):
+        return lazy("wsd-scale")["gen"](rng, tier)
+
+    import vlib
+    return [{"name": "deque", "harness": "wsd", "model": "Wsd", "gen": gen_wsd, "post": post_wsd},
+            {"name": "deque-scale", "harness": "wsdscale", "model": None, "gen": gen_scale, "post": vlib.oracle_note}]
+
+
 def _cond_signallers():
     """two or more fibers signalling the same condition variable WITHOUT the user mutex while
     several fibers wait on it, 3-4 kernel threads: the wake path of one primitive entered by
@@ -149,7 +178,7 @@ SPEC = {
                   _borrow("C11", "chan-sp", 60, 800, harness="chan"),
                   _borrow("C11", "multichan", 80, 1000, harness="multichan"),
                   _borrow("C06", "sem", 80, 1000), _borrow("C20", "multisignal", 80, 1000),
-                  _borrow("C09", "sleep", 80, 1000)],
+                  _borrow("C09", "sleep", 80, 1000)] + _deque_parts(),
         "rule": "cases = (mixed program over yield/mutex/semaphore/sleep/join/pipe read+write (fd waits) for 2-7 fibers, plus the scripts of the mutex, condition-variable, rwlock, barrier, signal, channel (bounded/unbounded/sp), multi-channel, semaphore, multi-signal and sleep (virtual clock) harnesses followed by the runtime model, 1-4 kernel threads, scheduler kind+seed) from VERIF_SEED; distinct = different (script, sha1 of the access sequence); non-trivial = a fiber was stolen by another kernel thread or at least 12 state-word writes happened",
         "trusted_base": [
             "run queues as bags at the deque API (rqpush/rqpop/rqsteal call-site events; deque internals = model Wsd, C02)",
